@@ -326,11 +326,20 @@ func (m *Muxer) retransmitTables(force bool) (int, error) {
 func (m *Muxer) WriteTables() (int, error) {
 	bytesWritten := 0
 
+	// if tables can't be generated nothing is written, therefore continuity counters and
+	// version numbers consumed in the process must be given back
+	patVersion, pmtVersion, patCC, pmtCC, pmUpdated := m.patVersion, m.pmtVersion, m.patCC, m.pmtCC, m.pmUpdated
+	rollback := func() {
+		m.patVersion, m.pmtVersion, m.patCC, m.pmtCC, m.pmUpdated = patVersion, pmtVersion, patCC, pmtCC, pmUpdated
+	}
+
 	if err := m.generatePAT(); err != nil {
+		rollback()
 		return bytesWritten, err
 	}
 
 	if err := m.generatePMT(); err != nil {
+		rollback()
 		return bytesWritten, err
 	}
 
